@@ -64,38 +64,17 @@ Proof.
   cbn [firstn]. constructor; [exact Ha|now apply IH].
 Qed.
 
-Lemma plan_write_sets_state s id st rs q' :
-  In q' (apply_write s (RPlan id st rs)) -> pid q' = id -> p_state q' = st /\ p_reason q' = rs.
+(* ---- an interrupted close: as long as the plan row has not been written (the LAST write), every row of
+   the plans table is exactly as before - the plan is still durably Running with its old times, so the next
+   start-up's Search finds it again ---- *)
+Lemma interrupted_close_keeps_plan_rows s stamp p j :
+  (j <= length (tl (rows_plan (age_out stamp p))))%nat ->
+  map head_cols (persist s (firstn j (writes_aged (age_out stamp p)))) = map head_cols s.
 Proof.
-  unfold apply_write. intros Hin Hid. apply in_map_iff in Hin as [q [<- _]].
-  rewrite pid_tm_plan in Hid. unfold tm_plan, plan_with. cbn [p_state p_reason g_write g_plan].
-  fold (pid q). rewrite Hid, N.eqb_refl. split; reflexivity.
-Qed.
-
-(* the durable store after the first j >= 1 writes of the close of p: whatever row of the plans table
-   carries p's id is Failed / ExceedRecovery *)
-Lemma close_prefix_not_running s stamp p j :
-  is_running p -> (1 <= j)%nat ->
-  forall q, In q (persist s (firstn j (writes_aged (age_out stamp p)))) -> pid q = pid p ->
-            status_of (p_state q) = Some Failed /\ p_reason q = FRExceedRecovery.
-Proof.
-  intros Hr Hj q Hq Hid.
-  destruct j as [|j]; [lia|].
-  unfold writes_aged in Hq. cbn [firstn] in Hq.
-  set (w0 := RPlan (oid (p_id (age_out stamp p))) (p_state (age_out stamp p)) (p_reason (age_out stamp p))) in *.
-  change (persist s (w0 :: ?l)) with (persist (apply_write s w0) l) in Hq.
-  set (rest := firstn j (tl (rows_plan (age_out stamp p)))) in *.
-  assert (Hrest : Forall (fun w => is_plan_row w = false) rest)
-    by (apply Forall_firstn, rows_plan_tail_no_plan).
-  assert (Hheads := persist_children_keeps_heads rest (apply_write s w0) Hrest).
-  assert (Hin : In (head_cols q) (map head_cols (apply_write s w0))) by (rewrite <- Hheads; now apply in_map).
-  apply in_map_iff in Hin as [q1 [Hcols Hq1]].
-  unfold head_cols in Hcols. injection Hcols as Hpid Hst Hrs.
-  assert (Hid1 : pid q1 = oid (p_id (age_out stamp p))).
-  { rewrite Hpid, Hid. rewrite age_out_close. reflexivity. }
-  destruct (plan_write_sets_state _ _ _ _ _ Hq1 Hid1) as [E1 E2].
-  rewrite <- Hst, <- Hrs, E1, E2, age_out_close. unfold close_plan. cbn [p_state p_reason].
-  unfold is_running, status_of in Hr. destruct (p_state p); [now split|discriminate].
+  intros Hj. unfold writes_aged. rewrite firstn_app.
+  replace (j - length (tl (rows_plan (age_out stamp p))))%nat with 0%nat by lia.
+  cbn [firstn]. rewrite app_nil_r.
+  apply persist_children_keeps_heads, Forall_firstn, rows_plan_tail_no_plan.
 Qed.
 
 (* what select hands to runPlan are ids of durably Running plans of the store *)
@@ -120,28 +99,6 @@ Proof.
   { rewrite <- (fetch_pids s _ _ Ef). rewrite <- Hid. now apply in_map. }
   unfold search_running in Hids. apply in_map_iff in Hids as [q [Hq Hin]].
   apply filter_In in Hin as [Hin Hr]. exists q. repeat split; [exact Hin|exact Hq|now apply running_iff].
-Qed.
-
-(* ---- the close is crash-safe: after the first write the plan is no longer Running, so a process that
-   dies anywhere in the close leaves a store on which no later start-up hands the plan to runPlan ---- *)
-Lemma close_is_crash_safe :
-  forall (s : list plan) (stamp : Z) (p : plan) (j : nat),
-    is_running p -> (1 <= j)%nat ->
-    let s' := persist s (firstn j (writes_aged (age_out stamp p))) in
-    (forall q, In q s' -> pid q = pid p ->
-               ~ is_running q /\ status_of (p_state q) = Some Failed /\ p_reason q = FRExceedRecovery) /\
-    (forall now' stamp' maxAge' recovery',
-        ~ In (pid p) (snd (select now' stamp' maxAge' recovery' s'))).
-Proof.
-  intros s stamp p j Hr Hj. cbv zeta.
-  assert (H1 : forall q, In q (persist s (firstn j (writes_aged (age_out stamp p)))) -> pid q = pid p ->
-               ~ is_running q /\ status_of (p_state q) = Some Failed /\ p_reason q = FRExceedRecovery).
-  { intros q Hq Hid. destruct (close_prefix_not_running s stamp p j Hr Hj q Hq Hid) as [E1 E2].
-    repeat split; [|exact E1|exact E2]. unfold is_running. rewrite E1. discriminate. }
-  split; [exact H1|].
-  intros now' stamp' maxAge' recovery' Hin.
-  apply resumed_are_running in Hin as [q [Hq [Hid Hrq]]].
-  destruct (H1 q Hq Hid) as [Hn _]. now apply Hn.
 Qed.
 
 (* all the writes of start-up recovery, uninterrupted, give the store [select] returns *)
